@@ -221,6 +221,13 @@ func checkC15(run *rt.Run, r *frun) bool {
 			run.Add("rejected_events_inert", 1)
 			continue
 		}
+		if k := st.Op.Kind; maxDur > 0 && (k == "write" || k == "emptywrite" || k == "reopen") && st.T1.Sub(st.T0) > maxDur {
+			// the call itself outlasted MaxDuration (a loaded machine): a file it opened may have come of age before
+			// the same call looked at its age, so it may have created *and* rotated it. What happened inside one call
+			// cannot be attributed from the snapshots around it: the sequence is judged up to here and no further.
+			run.Add("sequences_cut_at_a_call_longer_than_maxduration", 1)
+			return true
+		}
 		// new files of this step
 		var created []finfo
 		for _, f := range st.Snap {
